@@ -90,6 +90,10 @@ def export_rel(x, names):
         return [['TableFilter'], [r(x.child), v(x.pred)]]
     if c == 'TableOrderBy':
         return [['TableOrderBy', [[u(f), o] for f, o in x.sort_fields]], [r(x.child)]]
+    if c == 'TableUnion':
+        return [['TableUnion'], [r(ch) for ch in x.children]]
+    if c == 'TableKeyByAndAggregate':
+        return [['TableKeyByAndAggregate'], [r(x.child), v(x.expr), v(x.new_key)]]
     if c == 'TableLeftJoinRightDistinct':
         return [['TableLeftJoinRightDistinct', u(x.root)], [r(x.left), r(x.right)]]
     if c == 'TableIntervalJoin':
@@ -149,6 +153,10 @@ def unshare(x):
         return ir.TableFilter(u(x.child), u(x.pred))
     if c == 'TableOrderBy':
         return ir.TableOrderBy(u(x.child), x.sort_fields)
+    if c == 'TableUnion':
+        return ir.TableUnion([u(ch) for ch in x.children])
+    if c == 'TableKeyByAndAggregate':
+        return ir.TableKeyByAndAggregate(u(x.child), u(x.expr), u(x.new_key), x.n_partitions, x.buffer_size)
     if c == 'TableLeftJoinRightDistinct':
         return ir.TableLeftJoinRightDistinct(u(x.left), u(x.right), x.root)
     if c == 'TableIntervalJoin':
@@ -256,6 +264,14 @@ class Builder:
             return t.order_by(*args)
         if k == 'join':
             return t.join(self.table(P[2]), P[3] if len(P) > 3 else 'inner')
+        if k == 'union':
+            return t.union(*[self.table(Q) for Q in P[2]], unify=bool(P[3]))
+        if k == 'semi_join':
+            return t.semi_join(self.table(P[2]))
+        if k == 'anti_join':
+            return t.anti_join(self.table(P[2]))
+        if k == 'group_sum':
+            return t.group_by(*P[2]).aggregate(s=hl.agg.sum(t[P[3]]))
         if k == 'rows':
             return t.rows()
         if k == 'cols':
